@@ -38,11 +38,14 @@ func VerifC12rewards() {
 	dels := []sdk.Address{sdk.Address([]byte("delegator-address-01")), sdk.Address([]byte("delegator-address-02")), sdk.Address([]byte("delegator-address-03"))}
 	m := map[string]uint32{}
 	shares := []int64{}
+	total := int64(0)
 	for k := 0; k < n; k++ {
-		s := v.Int64In(1, 33)
+		s := v.Int64In(1, 98)
 		shares = append(shares, s)
+		total += s
 		m[dels[k].String()] = uint32(s)
 	}
+	v.Assume(total <= 100) // shares may add up to exactly 100 (the delegators then own the whole reward)
 	reward := v.BigIn("1", "1000000000000")
 	err := SplitNodeRewards(w.ctx.Logger(), sdk.NewIntFromBigInt(reward), w.out, m, func(recipient sdk.Address, share sdk.BigInt) {
 		w.k.mint(w.ctx, share, recipient)
